@@ -6,6 +6,14 @@ package main
 // of coq/Gen/GenC17.v: mode A (what the property talks about) or mode D (all
 // details the model predicts).  Aliasing ("shares no bytes") is observed
 // natively from the address ranges of the element bytes and printed as a class.
+// Texts are written in hex with a run of 8 or more equal bytes hh as "(hh*n)", so
+// that texts of many KiB stay short on the line.  What Get handed out is kept
+// (the string / slice header, which shares the element's bytes) and re-read
+// after every later call: the bytes an element had when it was read never
+// change, whatever is stored afterwards ("!held..." is printed if they do).
+// "B:<n>" is not a call of the inspector: the caller's buffer is used for n
+// bytes of other data and Reset, so that the calls which follow work with a
+// recycled buffer of that capacity.
 
 import (
 	"encoding/hex"
@@ -19,7 +27,78 @@ import (
 
 func init() { streams["c17"] = runC17 }
 
+// c17hex / c17unhex: hex with runs of 8 or more equal bytes written "(hh*n)" (hexs of coq/Gen/GenC17.v)
+func c17hex(p []byte) string {
+	var sb strings.Builder
+	const digits = "0123456789abcdef"
+	for i := 0; i < len(p); {
+		j := i
+		for j < len(p) && p[j] == p[i] {
+			j++
+		}
+		hh := string([]byte{digits[p[i]>>4], digits[p[i]&15]})
+		if j-i >= 8 {
+			sb.WriteString("(" + hh + "*" + strconv.Itoa(j-i) + ")")
+		} else {
+			for k := i; k < j; k++ {
+				sb.WriteString(hh)
+			}
+		}
+		i = j
+	}
+	return sb.String()
+}
+
+func c17nib(c byte) byte {
+	switch {
+	case c >= '0' && c <= '9':
+		return c - '0'
+	case c >= 'a' && c <= 'f':
+		return c - 'a' + 10
+	}
+	panic("bad hex digit " + string(c))
+}
+
+func c17unhex(s string) []byte {
+	out := make([]byte, 0, len(s)/2)
+	for i := 0; i < len(s); {
+		if s[i] != '(' {
+			out = append(out, c17nib(s[i])<<4|c17nib(s[i+1]))
+			i += 2
+			continue
+		}
+		end := i + strings.IndexByte(s[i:], ')')
+		c := c17nib(s[i+1])<<4 | c17nib(s[i+2])
+		n, err := strconv.Atoi(s[i+4 : end])
+		if err != nil {
+			panic("bad run " + s[i:end+1])
+		}
+		for k := 0; k < n; k++ {
+			out = append(out, c)
+		}
+		i = end + 1
+	}
+	return out
+}
+
+// a result of Get kept by the caller: the header it read (sharing the element's bytes) and a private copy of
+// what the bytes were at that time
+type c17held struct {
+	s    string
+	b    []byte
+	isB  bool
+	want string
+}
+
+func (h *c17held) now() string {
+	if h.isB {
+		return string(h.b)
+	}
+	return h.s
+}
+
 type c17val struct {
+	held       []*c17held
 	rep        byte // 'S' []string, 'P' [][]byte
 	form       byte // 'v' by value, 'p' pointer, 'n' typed nil pointer, 'F' foreign
 	ss         []string
@@ -54,7 +133,7 @@ func c17parse(s string) *c17val {
 	if v.rep == 'S' {
 		v.ss = make([]string, len(els), len(els)+extra)
 		for i, e := range els {
-			v.ss[i] = string(unhex(e[1:])) // a fresh allocation per element
+			v.ss[i] = string(c17unhex(e[1:])) // a fresh allocation per element
 		}
 		v.baseCap = cap(v.ss)
 	} else {
@@ -66,7 +145,7 @@ func c17parse(s string) *c17val {
 		var raw []byte
 		for _, e := range els {
 			p := strings.IndexByte(e, '+')
-			d := unhex(e[1:p])
+			d := c17unhex(e[1:p])
 			x, _ := strconv.Atoi(e[p+1:])
 			wins = append(wins, win{len(raw), len(d), x})
 			raw = append(raw, d...)
@@ -166,7 +245,7 @@ func (v *c17val) print(detail bool) string {
 			if i > 0 {
 				sb.WriteByte(',')
 			}
-			sb.WriteString("x" + hex.EncodeToString(v.elem(i)))
+			sb.WriteString("x" + c17hex(v.elem(i)))
 		}
 		sb.WriteByte(']')
 		return sb.String()
@@ -191,7 +270,7 @@ func (v *c17val) print(detail bool) string {
 			if i > 0 {
 				sb.WriteByte(',')
 			}
-			sb.WriteString("x" + hex.EncodeToString(v.elem(i)))
+			sb.WriteString("x" + c17hex(v.elem(i)))
 			if v.rep == 'P' {
 				sb.WriteString("+" + strconv.Itoa(cap(v.pp[i])-len(v.pp[i])))
 			}
@@ -250,7 +329,7 @@ func (v *c17val) ref(detail bool, x any) string {
 		if detail {
 			k = "s"
 		}
-		return k + idx + "=" + hex.EncodeToString([]byte(*p))
+		return k + idx + "=" + c17hex([]byte(*p))
 	case *[]byte:
 		idx := "?"
 		for j := range v.pp {
@@ -262,7 +341,7 @@ func (v *c17val) ref(detail bool, x any) string {
 		if detail {
 			k = "b"
 		}
-		return k + idx + "=" + hex.EncodeToString(*p)
+		return k + idx + "=" + c17hex(*p)
 	}
 	return "?"
 }
@@ -334,9 +413,15 @@ func c17step(ins inspector.StringsInspector, v *c17val, buf *inspector.ByteBuffe
 		if x == nil {
 			return c17err(detail, err) + ",g-"
 		}
+		switch p := x.(type) {
+		case *string:
+			v.held = append(v.held, &c17held{s: *p, want: strings.Clone(*p)})
+		case *[]byte:
+			v.held = append(v.held, &c17held{b: *p, isB: true, want: string(*p)})
+		}
 		return c17err(detail, err) + ",g" + v.ref(detail, x)
 	case "w", "W":
-		data := unhex(f[2])
+		data := c17unhex(f[2])
 		var value any
 		var tr [][2]uintptr
 		switch f[1] {
@@ -379,7 +464,7 @@ func c17step(ins inspector.StringsInspector, v *c17val, buf *inspector.ByteBuffe
 		return c17err(detail, err) + "," + c17alias(c17overlap(tr, v.ranges()))
 	case "C":
 		code, _ := strconv.Atoi(f[1])
-		right := string(unhex(f[2]))
+		right := string(c17unhex(f[2]))
 		r1, r2 := true, false
 		err := ins.Compare(v.arg(), inspector.Op(code), right, &r1, c17path(f[3])...)
 		_ = ins.Compare(v.arg(), inspector.Op(code), right, &r2, c17path(f[3])...)
@@ -539,6 +624,11 @@ func c17step(ins inspector.StringsInspector, v *c17val, buf *inspector.ByteBuffe
 		err := ins.Reset(v.arg())
 		v.track()
 		return c17err(detail, err)
+	case "B":
+		n, _ := strconv.Atoi(f[1])
+		buf.Bufferize(make([]byte, n))
+		buf.Reset()
+		return "e-"
 	}
 	panic("bad op " + op)
 }
@@ -552,7 +642,14 @@ func runC17(input string) string {
 	var steps []string
 	for _, op := range parts[2:] {
 		res := c17step(ins, v, buf, detail, op)
-		steps = append(steps, res+"@"+v.print(detail))
+		state := v.print(detail)
+		for k, h := range v.held {
+			if h.now() != h.want {
+				state += "!held" + strconv.Itoa(k) + "=" + c17hex([]byte(h.now()))
+				break
+			}
+		}
+		steps = append(steps, res+"@"+state)
 	}
 	return strings.Join(steps, "|")
 }
